@@ -35,9 +35,11 @@ package ociclient
 //@   requires r != nil && 0 <= r.Kind && r.Kind <= ocirequest.ReqCatalogList
 //@   modifies nothing
 
+// do fills in the scheme and host of the request's URL and adds an Expect
+// header when there is a body; nothing else of the request changes.
 //@ func (*client).do
 //@   log
-//@   modifies http.Request, url.URL
+//@   modifies url.URL.Scheme, url.URL.Host
 //@   requires wfReq(req)
 //@   ensures[response-or-error] result.1 == nil ==> wfResp(result.0)
 //@   ensures[error-means-nil] result.1 != nil ==> result.0 == nil
@@ -93,13 +95,47 @@ package ociclient
 // A digest handed to newBlobReader names a registered algorithm (go-digest's
 // Algorithm().Hash() panics otherwise).
 //@ func newBlobReader
+//@   log
 //@   requires r != nil && desc.Digest != "" && ociref.IsValidDigest(string(desc.Digest))
-//@   ensures result != nil
+//@   ensures result != nil && result.verify && result.desc == desc && result.n == 0 && result.r == r &&
+//@     result.digester != nil && hashed(result.digester) == ""
 //@ func newBlobReaderUnverified
+//@   log
 //@   requires r != nil && desc.Digest != "" && ociref.IsValidDigest(string(desc.Digest))
-//@   ensures result != nil
+//@   ensures result != nil && !result.verify
 
+// C01: the verifying reader. hashed(h) is the ghost string of everything
+// written to the hash h; digestOf(alg, bytes) is the digest function that
+// go-digest's FromBytes and NewDigest both compute. Every byte relayed to the
+// caller has gone through the hash and been counted; a clean end of stream
+// (io.EOF) is reported by a verifying reader only when the count equals the
+// descriptor's size and the digest of everything relayed equals the
+// descriptor's digest; an over-long body fails as soon as it is noticed.
 //@ invariant (*blobReader) self != nil && self.r != nil && self.digester != nil
+//@ invariant (*blobReader) self.n == len(hashed(self.digester))
+
+// What goes into the hash is exactly what the source put into the caller's
+// buffer on this call.
+//@ sink (*blobReader).digester Write(p) requires string(p) == string(buf[:n])
+//@ func (*blobReader).Read
+//@   private r
+//@   ensures[every-relayed-byte-is-hashed-and-counted] result.0 == n && r.n == old(r.n) + result.0 &&
+//@     len(hashed(r.digester)) == old(len(hashed(r.digester))) + result.0 && hasPrefix(hashed(r.digester), old(hashed(r.digester)))
+//@   ensures[clean-end-only-after-verification] result.1 == io.EOF && r.verify ==>
+//@     r.n == r.desc.Size && digestOf(r.desc.Digest.Algorithm(), hashed(r.digester)) == r.desc.Digest
+//@   ensures[too-long-fails-at-once] result.1 == nil ==> r.n <= r.desc.Size
+//@ func (*blobReader).Descriptor
+//@   modifies nothing
+//@   ensures result == r.desc
+
+// read returns a verifying reader: the digest it checks against comes from
+// the response, from the request, from the body itself (small manifests) or
+// from a HEAD request, and in every case the bytes relayed are checked
+// against it.
+//@ func (*client).read
+//@   ensures[returns-a-verifying-reader] result.1 == nil ==>
+//@     (calls == [c.doRequest(_, _, _), newBlobReader(_, _)] && result.0 == calls[1].result) ||
+//@     (calls == [c.doRequest(_, _, _), c.doRequest(_, _, _), newBlobReader(_, _)] && result.0 == calls[2].result)
 
 // The pager: each trip round the loop consumes one server answer, so it
 // terminates when the server's answers are finite.
@@ -183,8 +219,44 @@ package ociclient
 //@ func (*client).Referrers
 //@   private resp
 //@   ensures result != nil
+// C04: the chunked writer's books. size counts every byte accepted from the
+// caller, flushed every byte the server has acknowledged, chunk holds the
+// rest: size == flushed + len(chunk) whenever the writer's lock is free.
+// flush sends exactly chunk followed by buf, labelled with the half-open
+// range [flushed, flushed+len) it occupies in the upload, and advances
+// flushed only when the server accepted it.
+//@ guarded_by blobWriter.mu: blobWriter.closed, blobWriter.chunk, blobWriter.closeErr, blobWriter.size, blobWriter.flushed, blobWriter.location
+//@ public-invariant (*blobWriter) self.size == self.flushed + len(self.chunk)
+//@ immutable blobWriter.chunkSize, blobWriter.client, blobWriter.ctx
 //@ func (*blobWriter).flush
-//@   private resp
+//@   holds w.mu
+//@   private resp, req, w
+//@   ensures[nothing-outstanding-nothing-sent] commitDigest == "" && len(buf) + old(len(w.chunk)) == 0 ==>
+//@     result == nil && ncalls() == 0 && w.flushed == old(w.flushed)
+//@   ensures[labelled-with-its-place-in-the-upload] result == nil && !(commitDigest == "" && len(buf) + old(len(w.chunk)) == 0) ==>
+//@     req.ContentLength == old(len(w.chunk)) + len(buf) &&
+//@     hdr(req.Header, "Content-Range") == ocirequest.RangeString(old(w.flushed), old(w.flushed) + old(len(w.chunk)) + len(buf))
+//@   ensures[acknowledged-means-flushed] result == nil && !(commitDigest == "" && len(buf) + old(len(w.chunk)) == 0) ==>
+//@     w.flushed == old(w.flushed) + old(len(w.chunk)) + len(buf) && len(w.chunk) == 0
+//@   ensures[failure-keeps-the-books] result != nil ==> w.flushed == old(w.flushed) && string(w.chunk) == old(string(w.chunk))
+//@   ensures[size-untouched] w.size == old(w.size)
+
+//@ func (*blobWriter).Write
+//@   private w
+//@   ensures[accepted-bytes-are-counted-once] result.1 == nil ==> result.0 == len(buf) && w.size == old(w.size) + len(buf)
+//@   ensures[refused-write-changes-nothing] result.1 != nil ==> result.0 == 0 && w.size == old(w.size) && w.flushed == old(w.flushed) &&
+//@     string(w.chunk) == old(string(w.chunk))
+//@   ensures[small-writes-are-buffered-in-order] result.1 == nil && old(len(w.chunk)) + len(buf) <= w.chunkSize ==>
+//@     string(w.chunk) == old(string(w.chunk)) + string(buf) && w.flushed == old(w.flushed)
+//@ func (*blobWriter).Size
+//@   ensures result == w.size
+//@ func (*blobWriter).Commit
+//@   private w
+//@   ensures[everything-flushed-before-success] result.1 == nil ==> w.flushed == w.size && len(w.chunk) == 0 &&
+//@     result.0.Size == w.size && result.0.Digest == digest
+//@ func (*blobWriter).Close
+//@   private w
+//@   ensures[everything-flushed-before-success] result == nil && !old(w.closed) ==> w.flushed == w.size && len(w.chunk) == 0
 
 //@ func (*client).DeleteBlob
 //@   requires ociref.IsValidDigest(string(digest))
